@@ -2,6 +2,7 @@ import SigpyVerif.Model.Py
 import SigpyVerif.Model.Proto
 import SigpyVerif.Model.C02
 import SigpyVerif.Gen.Effects
+import SigpyVerif.Model.C01Proto
 namespace SigpyVerif.Drv.C02
 open SigpyVerif SigpyVerif.Proto SigpyVerif.C02
 
@@ -9,7 +10,9 @@ open SigpyVerif SigpyVerif.Proto SigpyVerif.C02
     `summary <name>`  → `ok ok=<0|1> clean=<0|1> mut=<origins> ret=<origins>`: the result of the Lean
                          points-to analysis on the generated program of that function
     `list`            → names of all generated programs
-    `untranslated`    → number of functions outside the translator's subset -/
+    `untranslated`    → number of functions outside the translator's subset
+    `mats <rpn>`      → shapes and dense matrices of `C01.denote` of an expression tree (the denotation
+                         `tree_linear` / `tree_denotation_function` are about), via the C01 protocol -/
 def handle (toks : List String) : String :=
   match toks with
   | ["summary", name] =>
@@ -18,5 +21,6 @@ def handle (toks : List String) : String :=
     | none => "err unknown-function"
   | ["list"] => "ok " ++ ",".intercalate (Gen.Effects.effectTable.map (·.1))
   | ["untranslated"] => s!"ok {Gen.Effects.untranslated.length}"
+  | "mats" :: _ => SigpyVerif.C01.Proto.handle toks
   | _ => "err bad-op"
 end SigpyVerif.Drv.C02
